@@ -281,6 +281,13 @@ def step (st : String) (line : String) : String × String :=
             | none => bad
         | none => bad
       else bad
+    | ["wctype", a] =>
+      match arg a with
+      | some name =>
+        if name.length > 64 then bad
+        -- `wctype_wcsn`: shorter than 10, printable ASCII only, and EXACTLY one of the twelve names
+        else if name.length < 10 ∧ name.all (fun c => 32 ≤ c ∧ c ≤ 127) ∧ (cclassOf name).isSome then "1" else "0"
+      | none => bad
     | [op, a] =>
       if op = "basename" ∨ op = "dirname" then
         let p : Option (Option Bytes) :=
